@@ -452,57 +452,7 @@ func c09Bookkeeping(c *Ctx, t *c09Tables) {
 	// ------------------------------------------------------------ J6
 	c.Rule("C09.J6", "GATE", "createObject journals a plain creation (whose undo forgets the address) only when no previous object — live, or marked deleted by an earlier transaction of the block — existed; otherwise it journals a reset entry that carries that previous object")
 	c.Min(2)
-	co := w.Fn(statePkg, "StateDB", "createObject")
-	c.sawFunc(fname(co))
-	var prevCall ssa.CallInstruction
-	includesDeleted := false
-	for _, ci := range callInstrs(co) {
-		if o := calleeObj(ci); o != nil && (o.Name() == "getDeletedStateObject" || o.Name() == "getStateObject") && recvName(o) == "StateDB" {
-			prevCall = ci
-			includesDeleted = o.Name() == "getDeletedStateObject"
-		}
-	}
-	if prevCall == nil {
-		c.Undecided(fname(co)+"#creation-entry", co.Pos(), "createObject no longer looks the previous object up")
-	} else {
-		c.sites++
-		c.Check(fname(co)+"#previous-object-lookup-includes-deleted", prevCall.Pos(), includesDeleted, ifelse(includesDeleted, "the previous object is looked up with getDeletedStateObject, which also returns objects marked deleted earlier in the block", "the previous object is looked up with getStateObject, which hides objects marked deleted by an earlier transaction of the block: their re-creation is journaled as a plain creation, and reverting it drops the tombstone — the destroyed account comes back from the trie with its old balance, code and storage"))
-		for _, a := range callsTo(co, t.append_) {
-			args := callArgs(a)
-			et := stripConv(args[0]).Type()
-			name := types.TypeString(et, func(*types.Package) string { return "" })
-			atoms := atomsOf(factsAtInstr(a))
-			isNilPrev, nonNilPrev, other := false, false, false
-			for _, at := range atoms {
-				if at.Kind == "isnil" && stripConv(at.X) == ssa.Value(prevCall.Value()) {
-					if at.Truth {
-						isNilPrev = true
-					} else {
-						nonNilPrev = true
-					}
-				} else {
-					other = true
-				}
-			}
-			c.sites++
-			switch {
-			case strings.Contains(name, "createObjectChange"):
-				ok := isNilPrev && !other
-				c.Check(fname(co)+"#createObjectChange-only-without-previous", a.Pos(), ok, ifelse(ok, "appended exactly under prev == nil", "a creation entry (whose undo deletes the address from the live set) is journaled although a previous object may exist: reverting it forgets that object — e.g. one marked deleted earlier in the block is reloaded from the trie as if it had never been destroyed"))
-			case strings.Contains(name, "resetObjectChange"):
-				// carries prev
-				carries := false
-				backward(args[0], func(v ssa.Value) bool {
-					if v == ssa.Value(prevCall.Value()) {
-						carries = true
-					}
-					return true
-				})
-				ok := nonNilPrev && carries
-				c.Check(fname(co)+"#resetObjectChange-carries-previous", a.Pos(), ok, ifelse(ok, "appended under prev != nil with the previous object as pre-image", "the reset entry does not carry the previous object"))
-			}
-		}
-	}
+	createObjectJournalKinds(c, w, t.append_)
 
 	// ------------------------------------------------------------ J8
 	c.Rule("C09.J8", "OWNERSHIP", "a slice whose previous value a journal entry keeps by reference (stateObject.delegations → delegationsChange.prevdlgs) is never edited in place: every element store or copy() destination in core/state whose backing array may be the field's current one — reached through append or re-slicing without a fresh make — is a violation, because it rewrites the undo copy")
@@ -1067,5 +1017,62 @@ func journaledSliceWrites(c *Ctx, w *World, what string) {
 	}
 	if nWrites < 2 {
 		c.Undecided("core/state.stateObject.delegations#in-place-writes", 0, fmt.Sprintf("only %d in-place slice writes found in functions that read the delegation list", nWrites))
+	}
+}
+
+// createObjectJournalKinds: createObject journals a creation entry only when no
+// previous object (live or marked deleted) exists, and a reset entry carrying
+// the previous object otherwise. Shared by C09.J6 and C16.F6.
+func createObjectJournalKinds(c *Ctx, w *World, appendObj *types.Func) {
+	co := w.Fn(statePkg, "StateDB", "createObject")
+	c.sawFunc(fname(co))
+	var prevCall ssa.CallInstruction
+	includesDeleted := false
+	for _, ci := range callInstrs(co) {
+		if o := calleeObj(ci); o != nil && (o.Name() == "getDeletedStateObject" || o.Name() == "getStateObject") && recvName(o) == "StateDB" {
+			prevCall = ci
+			includesDeleted = o.Name() == "getDeletedStateObject"
+		}
+	}
+	if prevCall == nil {
+		c.Undecided(fname(co)+"#creation-entry", co.Pos(), "createObject no longer looks the previous object up")
+	} else {
+		c.sites++
+		c.Check(fname(co)+"#previous-object-lookup-includes-deleted", prevCall.Pos(), includesDeleted, ifelse(includesDeleted, "the previous object is looked up with getDeletedStateObject, which also returns objects marked deleted earlier in the block", "the previous object is looked up with getStateObject, which hides objects marked deleted by an earlier transaction of the block: their re-creation is journaled as a plain creation, and reverting it drops the tombstone — the destroyed account comes back from the trie with its old balance, code and storage"))
+		for _, a := range callsTo(co, appendObj) {
+			args := callArgs(a)
+			et := stripConv(args[0]).Type()
+			name := types.TypeString(et, func(*types.Package) string { return "" })
+			atoms := atomsOf(factsAtInstr(a))
+			isNilPrev, nonNilPrev, other := false, false, false
+			for _, at := range atoms {
+				if at.Kind == "isnil" && stripConv(at.X) == ssa.Value(prevCall.Value()) {
+					if at.Truth {
+						isNilPrev = true
+					} else {
+						nonNilPrev = true
+					}
+				} else {
+					other = true
+				}
+			}
+			c.sites++
+			switch {
+			case strings.Contains(name, "createObjectChange"):
+				ok := isNilPrev && !other
+				c.Check(fname(co)+"#createObjectChange-only-without-previous", a.Pos(), ok, ifelse(ok, "appended exactly under prev == nil", "a creation entry (whose undo deletes the address from the live set) is journaled although a previous object may exist: reverting it forgets that object — e.g. one marked deleted earlier in the block is reloaded from the trie as if it had never been destroyed"))
+			case strings.Contains(name, "resetObjectChange"):
+				// carries prev
+				carries := false
+				backward(args[0], func(v ssa.Value) bool {
+					if v == ssa.Value(prevCall.Value()) {
+						carries = true
+					}
+					return true
+				})
+				ok := nonNilPrev && carries
+				c.Check(fname(co)+"#resetObjectChange-carries-previous", a.Pos(), ok, ifelse(ok, "appended under prev != nil with the previous object as pre-image", "the reset entry does not carry the previous object"))
+			}
+		}
 	}
 }
